@@ -137,36 +137,48 @@ theorem ACov.weaken {a b c d : Int} (ha : 0 ≤ a) (hc : 0 ≤ c) (hcd : c ≤ d
     obtain ⟨y, hy, hk, ho, hr⟩ := h.cov x hx
     exact ⟨y, hy, hk, sle_weaken ha hc hcd (hA x hx) ho, hr⟩⟩
 
-/-- A pruning function that is an approximate reduction with factor `a / b`. -/
+/-- A pruning function that is an approximate reduction with factor `a / b` on every table whose rows
+satisfy `G`. -/
+def ApproxOn (G : Cand K → Prop) (a b : Int) (P : List (Cand K) → List (Cand K)) : Prop :=
+  ∀ A, (∀ x ∈ A, G x) → ACov a b (P A) A
+
+/-- … on every table. -/
 def Approx (a b : Int) (P : List (Cand K) → List (Cand K)) : Prop := ∀ A, ACov a b (P A) A
 
 theorem approx_prune : Approx 1 1 (prune : List (Cand K) → List (Cand K)) :=
   fun A => ACov.of_cov (cov_prune A)
 
+/-- All objective columns are non-negative. -/
+def NonNegObj (c : Cand K) : Prop := ∀ u ∈ c.obj, 0 ≤ u
+
 /-! ## `tol_bound`: bucket pruning -/
 
-/-- Contract of a bucket function for the factor `a / b`: a value whose bucket is not larger is within
-the factor. (For `logscale_to_tolerance`: buckets `[(1+t)^(k-½), (1+t)^(k+½)]`.) -/
-def BucketOK (a b : Int) (β : Int → Int) : Prop := ∀ y x, β y ≤ β x → b * y ≤ a * x
+/-- Contract of a bucket function for the factor `a / b`: for a non-negative value `x`, any value whose
+bucket is not larger is within the factor of `x`. (For `logscale_to_tolerance`: buckets
+`[(1+t)^(k-½), (1+t)^(k+½)]`. The restriction to `0 ≤ x` is essential: for `a > b` no function at all
+satisfies the unrestricted contract, take `y = x < 0`.) -/
+def BucketOK (a b : Int) (β : Int → Int) : Prop := ∀ y x, 0 ≤ x → β y ≤ β x → b * y ≤ a * x
 
 theorem sle_of_bucket {a b : Int} {β : Int → Int} (hβ : BucketOK a b β) :
-    ∀ {y x : Vec}, leqAll (y.map β) (x.map β) = true → sle a b y x
-  | [], [], _ => trivial
-  | [], _ :: _, h => by simp [leqAll] at h
-  | _ :: _, [], h => by simp [leqAll] at h
-  | y :: ys, x :: xs, h => by
+    ∀ {y x : Vec}, (∀ u ∈ x, 0 ≤ u) → leqAll (y.map β) (x.map β) = true → sle a b y x
+  | [], [], _, _ => trivial
+  | [], _ :: _, _, h => by simp [leqAll] at h
+  | _ :: _, [], _, h => by simp [leqAll] at h
+  | y :: ys, x :: xs, hx, h => by
     simp only [List.map_cons, leqAll, Bool.and_eq_true, decide_eq_true_eq] at h
-    exact ⟨hβ y x h.1, sle_of_bucket hβ h.2⟩
+    exact ⟨hβ y x (hx x (by simp)) h.1,
+      sle_of_bucket hβ (fun u hu => hx u (List.mem_cons_of_mem _ hu)) h.2⟩
 
 theorem mem_pruneTol {img : Cand K → Cand K} {cs : List (Cand K)} {y : Cand K} :
     y ∈ pruneTol img cs ↔ ∃ f ∈ prune (cs.map img), cs.find? (fun c => decide (img c = f)) = some y := by
   simp [pruneTol, List.mem_filterMap]
 
-/-- **`tol_bound`.** Bucket pruning of the objectives (reservations compared exactly) keeps, for every
-row, a row of the same class with objectives within the factor and reservations not larger. -/
+/-- **`tol_bound`.** On tables with non-negative objectives, bucket pruning of the objectives
+(reservations compared exactly) keeps, for every row, a row of the same class with objectives within
+the factor and reservations not larger. -/
 theorem tol_bound {a b : Int} {β : Int → Int} (hβ : BucketOK a b β) :
-    Approx a b (pruneTol (bucketObj β) : List (Cand K) → List (Cand K)) := by
-  intro cs
+    ApproxOn NonNegObj a b (pruneTol (bucketObj β) : List (Cand K) → List (Cand K)) := by
+  intro cs hcs
   refine ⟨fun y hy => ?_, fun x hx => ?_⟩
   · obtain ⟨f, _, hfind⟩ := mem_pruneTol.1 hy
     exact List.mem_of_find?_eq_some hfind
@@ -183,23 +195,24 @@ theorem tol_bound {a b : Int} {β : Int → Int} (hβ : BucketOK a b β) :
     refine ⟨y, mem_pruneTol.2 ⟨f, hf, hy⟩, ?_⟩
     obtain ⟨hk, ho, hr⟩ := cle_iff.1 hle
     rw [← hyf] at hk ho hr
-    exact ⟨hk, sle_of_bucket hβ ho, hr⟩
+    exact ⟨hk, sle_of_bucket hβ (hcs x hx) ho, hr⟩
 
 /-! ## The pipeline with approximate pruning -/
 
 /-- Code shape: approximate pruning of the per-Einsum tables, exact pruning after the joins. -/
 theorem acov_ffmTFold_exact {ops : Ops K} (hr : RMono ops) (cap : Int) {a b : Int} (ha : 0 ≤ a)
-    (hb : 0 ≤ b) {P₀ : List (Cand K) → List (Cand K)} (hP₀ : Approx a b P₀) :
-    ∀ (Ts : List (List (Cand K))) {acc' acc : List (Cand K)}, ACov a b acc' acc →
+    (hb : 0 ≤ b) {P₀ : List (Cand K) → List (Cand K)} :
+    ∀ (Ts : List (List (Cand K))) {acc' acc : List (Cand K)},
+      (∀ T ∈ Ts, ACov a b (P₀ T) T) → ACov a b acc' acc →
       ACov a b (ffmTFold ops cap P₀ prune acc' Ts) (survFold ops (capFilter cap) acc Ts)
-  | [], _, _, h => h
-  | T :: Ts, acc', acc, h => by
+  | [], _, _, _, h => h
+  | T :: Ts, acc', acc, hP₀, h => by
     simp only [ffmTFold, survFold]
-    apply acov_ffmTFold_exact hr cap ha hb hP₀ Ts
+    apply acov_ffmTFold_exact hr cap ha hb Ts (fun T' hT' => hP₀ T' (List.mem_cons_of_mem _ hT'))
     have h1 : ACov a b ((cross ops acc' (P₀ T)).filter (fitsC cap))
         ((cross ops acc (T.filter (capFilter cap).keepI)).filter ((capFilter cap).keepJ Ts)) := by
       simp only [capFilter, filter_const_true]
-      exact (h.cross hr (hP₀ T)).filter_fits cap
+      exact (h.cross hr (hP₀ T (List.mem_cons_self))).filter_fits cap
     exact ((approx_prune _).trans (Int.zero_le_ofNat 1) hb h1).congr (Int.one_mul a) (Int.one_mul b)
 
 /-- **`ffm_tol`** (shape of the code, `k = 1`). With tolerance pruning of factor `a / b` applied to the
@@ -208,8 +221,8 @@ combinations (so every returned point is achievable and within capacity) and eve
 has a returned row of its class with objectives within **one** factor `a / b` and reservations not
 larger. No sign condition is needed. -/
 theorem ffm_tol {ops : Ops K} (hr : RMono ops) (hc : CapClosed ops) (cap : Int) {a b : Int}
-    (ha : 0 ≤ a) (hb : 0 ≤ b) {P₀ : List (Cand K) → List (Cand K)} (hP₀ : Approx a b P₀)
-    (tables : List (List (Cand K))) :
+    (ha : 0 ≤ a) (hb : 0 ≤ b) {P₀ : List (Cand K) → List (Cand K)}
+    (tables : List (List (Cand K))) (hP₀ : ∀ T ∈ tables, ACov a b (P₀ T) T) :
     ACov a b (ffmT ops cap P₀ prune tables) (validCombos ops cap tables) := by
   cases tables with
   | nil =>
@@ -217,8 +230,9 @@ theorem ffm_tol {ops : Ops K} (hr : RMono ops) (hc : CapClosed ops) (cap : Int) 
     simp [validCombos, allCombos_nil] at hx
   | cons T Ts =>
     have h0 : ACov a b (P₀ T) (T.filter (capFilter cap).keepI) := by
-      simp only [capFilter, filter_const_true]; exact hP₀ T
-    have h1 := (acov_ffmTFold_exact hr cap ha hb hP₀ Ts h0).filter_fits cap
+      simp only [capFilter, filter_const_true]; exact hP₀ T (List.mem_cons_self)
+    have h1 := (acov_ffmTFold_exact hr cap ha hb Ts
+      (fun T' hT' => hP₀ T' (List.mem_cons_of_mem _ hT')) h0).filter_fits cap
     have h2 : ACov 1 1 ((surv ops (capFilter cap) (T :: Ts)).filter (fitsC cap))
         (validCombos ops cap (T :: Ts)) :=
       ACov.of_cov (Cov.of_setEq cle_po (surv_capFilter ops hc cap (T :: Ts)))
@@ -228,10 +242,11 @@ theorem ffm_tol {ops : Ops K} (hr : RMono ops) (hc : CapClosed ops) (cap : Int) 
 
 /-- Every row `ffmT` returns is a valid combination within capacity ("resource re-check"). -/
 theorem ffmT_valid {ops : Ops K} (hr : RMono ops) (hc : CapClosed ops) (cap : Int) {a b : Int}
-    (ha : 0 ≤ a) (hb : 0 ≤ b) {P₀ : List (Cand K) → List (Cand K)} (hP₀ : Approx a b P₀)
-    (tables : List (List (Cand K))) {y : Cand K} (hy : y ∈ ffmT ops cap P₀ prune tables) :
+    (ha : 0 ≤ a) (hb : 0 ≤ b) {P₀ : List (Cand K) → List (Cand K)}
+    (tables : List (List (Cand K))) (hP₀ : ∀ T ∈ tables, ACov a b (P₀ T) T)
+    {y : Cand K} (hy : y ∈ ffmT ops cap P₀ prune tables) :
     y ∈ allCombos ops tables ∧ fits cap y.res = true := by
-  have := (ffm_tol hr hc cap ha hb hP₀ tables).sub y hy
+  have := (ffm_tol hr hc cap ha hb tables hP₀).sub y hy
   simpa [validCombos, List.mem_filter, fitsC] using this
 
 theorem int_pow_le_pow {a b : Int} (hb : 0 ≤ b) (hba : b ≤ a) : ∀ j : Nat, b ^ j ≤ a ^ j
@@ -243,15 +258,16 @@ theorem int_pow_le_pow {a b : Int} (hb : 0 ≤ b) (hba : b ≤ a) : ∀ j : Nat,
 
 /-- General shape: approximate pruning of the tables **and** after every join. -/
 theorem acov_ffmTFold_stages {ops : Ops K} (hr : RMono ops) (cap : Int) {a b : Int} (hb : 0 ≤ b)
-    (hba : b ≤ a) {n : Nat} {P₀ P₁ : List (Cand K) → List (Cand K)} (hP₀ : Approx a b P₀)
-    (hP₁ : Approx a b P₁) :
+    (hba : b ≤ a) {n : Nat} {P₀ P₁ : List (Cand K) → List (Cand K)}
+    (hP₁ : ApproxOn (GoodObj n) a b P₁) :
     ∀ (Ts : List (List (Cand K))) (j : Nat) {acc' acc : List (Cand K)},
+      (∀ T ∈ Ts, ACov a b (P₀ T) T) →
       (∀ T ∈ Ts, ∀ c ∈ T, GoodObj n c) → (∀ c ∈ acc, GoodObj n c) →
       ACov (a ^ (j + 1)) (b ^ (j + 1)) acc' acc →
       ACov (a ^ (j + 1 + Ts.length)) (b ^ (j + 1 + Ts.length))
         (ffmTFold ops cap P₀ P₁ acc' Ts) (survFold ops (capFilter cap) acc Ts)
-  | [], j, _, _, _, _, h => by simpa [ffmTFold, survFold] using h
-  | T :: Ts, j, acc', acc, hT, hacc, h => by
+  | [], j, _, _, _, _, _, h => by simpa [ffmTFold, survFold] using h
+  | T :: Ts, j, acc', acc, hP₀, hT, hacc, h => by
     have ha : 0 ≤ a := Int.le_trans hb hba
     simp only [ffmTFold, survFold, List.length_cons]
     have hT0 : ∀ c ∈ T, GoodObj n c := hT T (List.mem_cons_self)
@@ -259,22 +275,28 @@ theorem acov_ffmTFold_stages {ops : Ops K} (hr : RMono ops) (cap : Int) {a b : I
         ((capFilter cap).keepJ Ts), GoodObj n c := fun c hc =>
       good_cross (closed_goodObj ops n) hacc
         (fun y hy => hT0 y (List.mem_filter.1 hy).1) c (List.mem_filter.1 hc).1
-    have hstep := acov_ffmTFold_stages hr cap hb hba hP₀ hP₁ Ts (j + 1)
+    have hstep := acov_ffmTFold_stages hr cap hb hba hP₁ Ts (j + 1)
       (acc' := P₁ ((cross ops acc' (P₀ T)).filter (fitsC cap)))
+      (fun T' hT' => hP₀ T' (List.mem_cons_of_mem _ hT'))
       (fun T' hT' => hT T' (List.mem_cons_of_mem _ hT')) hnext
+    have hP₀T := hP₀ T (List.mem_cons_self)
     have hidx : j + 1 + (Ts.length + 1) = j + 1 + 1 + Ts.length := by omega
     rw [hidx]
     apply hstep
     -- the right table is within `a/b`, hence (objectives being non-negative) within `a^(j+1)/b^(j+1)`
     have hTw : ACov (a ^ (j + 1)) (b ^ (j + 1)) (P₀ T) T := by
-      have hw := (hP₀ T).weaken (c := b ^ j) (d := a ^ j) ha (Int.pow_nonneg hb)
+      have hw := hP₀T.weaken (c := b ^ j) (d := a ^ j) ha (Int.pow_nonneg hb)
         (int_pow_le_pow hb hba j) (fun x hx => (hT0 x hx).2)
       exact hw.congr (by rw [Int.pow_succ]) (by rw [Int.pow_succ])
     have h1 : ACov (a ^ (j + 1)) (b ^ (j + 1)) ((cross ops acc' (P₀ T)).filter (fitsC cap))
         ((cross ops acc (T.filter (capFilter cap).keepI)).filter ((capFilter cap).keepJ Ts)) := by
       simp only [capFilter, filter_const_true]
       exact (h.cross hr hTw).filter_fits cap
-    have h2 := (hP₁ _).trans ha (Int.pow_nonneg hb) h1
+    have hgood1 : ∀ c ∈ (cross ops acc' (P₀ T)).filter (fitsC cap), GoodObj n c := by
+      intro c hc
+      have := h1.sub c hc
+      exact hnext c this
+    have h2 := (hP₁ _ hgood1).trans ha (Int.pow_nonneg hb) h1
     exact h2.congr (by rw [Int.pow_succ a (j + 1), Int.mul_comm])
       (by rw [Int.pow_succ b (j + 1), Int.mul_comm])
 
@@ -284,8 +306,9 @@ stages (its own table's, then `k − 1` joins) and the bound is `a^k / b^k`. Nee
 objectives with a common number `n` of columns. -/
 theorem ffm_tol_stages {ops : Ops K} (hr : RMono ops) (hc : CapClosed ops) (cap : Int) {a b : Int}
     (hb : 0 ≤ b) (hba : b ≤ a) {n : Nat} {P₀ P₁ : List (Cand K) → List (Cand K)}
-    (hP₀ : Approx a b P₀) (hP₁ : Approx a b P₁)
-    (tables : List (List (Cand K))) (hgood : ∀ T ∈ tables, ∀ c ∈ T, GoodObj n c) :
+    (hP₁ : ApproxOn (GoodObj n) a b P₁)
+    (tables : List (List (Cand K))) (hP₀ : ∀ T ∈ tables, ACov a b (P₀ T) T)
+    (hgood : ∀ T ∈ tables, ∀ c ∈ T, GoodObj n c) :
     ACov (a ^ tables.length) (b ^ tables.length) (ffmT ops cap P₀ P₁ tables)
       (validCombos ops cap tables) := by
   have ha : 0 ≤ a := Int.le_trans hb hba
@@ -297,9 +320,10 @@ theorem ffm_tol_stages {ops : Ops K} (hr : RMono ops) (hc : CapClosed ops) (cap 
     have hT0 : ∀ c ∈ T, GoodObj n c := hgood T (List.mem_cons_self)
     have h0 : ACov (a ^ (0 + 1)) (b ^ (0 + 1)) (P₀ T) (T.filter (capFilter cap).keepI) := by
       simp only [capFilter, filter_const_true]
-      exact (hP₀ T).congr (by rw [Int.pow_succ, Int.pow_zero, Int.one_mul])
+      exact (hP₀ T (List.mem_cons_self)).congr (by rw [Int.pow_succ, Int.pow_zero, Int.one_mul])
         (by rw [Int.pow_succ, Int.pow_zero, Int.one_mul])
-    have h1 := (acov_ffmTFold_stages hr cap hb hba hP₀ hP₁ Ts 0
+    have h1 := (acov_ffmTFold_stages hr cap hb hba hP₁ Ts 0
+      (fun T' hT' => hP₀ T' (List.mem_cons_of_mem _ hT'))
       (fun T' hT' => hgood T' (List.mem_cons_of_mem _ hT'))
       (fun c hc => hT0 c (List.mem_filter.1 hc).1) h0).filter_fits cap
     have h2 : ACov 1 1 ((surv ops (capFilter cap) (T :: Ts)).filter (fitsC cap))
